@@ -22,9 +22,11 @@ SCENARIOS = {
     "C11": ["ids", "end_vs_observers"],
     "C14": ["dd_mt"],
     "C15": ["dd_mt"],
-    "C13": ["deadletters", "blocking", "end_vs_observers"],
+    "C13": ["deadletters", "blocking", "end_vs_observers", "ask_vs_end"],
 }
-RATES = ["0.01", "0.05", "0.2"]
+# pre-emption probability per basic block; 0 = a thread runs until it blocks or yields (long uninterrupted stretches:
+# "the actor replies, stops and closes its mailbox before the woken caller runs" needs that)
+RATES = ["0.01", "0.05", "0.2", "0"]
 # which property does a never-returning operation violate, per scenario
 HANG_PROP = {"async_mt": "C03", "ask_vs_end": "C03", "dd_mt": "C14"}
 
@@ -100,7 +102,8 @@ def run_batch(prop, scenarios, n_runs, seed):
         mseed = (seed + i * 101) % (1 << 31)
         # the id-allocation window is a handful of instructions: pre-empt much more often there
         rates = ["0.1", "0.3", "0.5"] if sc in ("ids", "dd_mt") else RATES
-        jobs.append((sc, wseed, mseed, rates[i % len(rates)]))
+        # the rate changes with every full pass over the scenario list, so every scenario meets every rate
+        jobs.append((sc, wseed, mseed, rates[(i // len(scenarios)) % len(rates)]))
     results = []
     with ThreadPoolExecutor(max_workers=ck.NPROC) as ex:
         for job, (code, out) in zip(jobs, ex.map(lambda j: one_run(*j), jobs)):
